@@ -82,8 +82,11 @@ PROPS: Dict[str, Dict[str, Any]] = {
                          "C04_payload_dict", "C04_payload_record", "C04_payload_class", "C04_run", "run_mono",
                          "src_dictany_sync", "src_dictany_async", "src_dictany_init", "dictAnySync_eq", "dictAnyAsync_eq",
                          "dGuard_exec", "dGate_exec", "dforFold_scan", "dScan_exec", "dLoopBody_step", "dforFold3_keys",
-                         "dFinal_keys", "dFinal_ok", "dTail_exec"],
-            "modules": ["KodaModel.Properties.C04", "KodaModel.Properties.C04DictAny"],
+                         "dFinal_keys", "dFinal_ok", "dTail_exec",
+                         "src_record_sync", "src_record_async", "src_record_init", "recordSync_eq", "recordAsync_eq",
+                         "rGate_exec", "rLoopBody_step", "rforFold3_keys", "rFinal_keys", "rFinal_ok", "rTail_exec",
+                         "dictItems_of_base"],
+            "modules": ["KodaModel.Properties.C04", "KodaModel.Properties.C04DictAny", "KodaModel.Properties.C04Record"],
             "level_note": "the C04_* theorems state the property about recordStep (all five record-shaped validators share it).  "
                           "Tie to the source: (1) TRANSLATOR, for DictValidatorAny - harness/pysrc.py rewrites "
                           "Generated/DictAnySrc.lean from the AST of DictValidatorAny._validate_to_tuple / "
@@ -92,8 +95,10 @@ PROPS: Dict[str, Dict[str, Any]] = {
                           "early return, the loop over the precomputed (key, wrapped validator, required) triples, `not in`, "
                           "subscripts, item assignment into the payload and error dicts, the `and` / walrus chain of "
                           "whole-object checks) is recordStep for the dictAny kind, for every schema, policy, object check "
-                          "and input; __init__ is pinned (src_dictany_init).  RecordValidator, DataclassValidator, "
-                          "NamedTupleValidator, TypedDictValidator: hand-modelled.  (2) the correspondence stream, for all "
+                          "and input; __init__ is pinned (src_dictany_init).  RecordValidator is translated into the same language "
+                          "(isinstance(data, dict), MissingKeyErr(), `nothing` for an absent optional key, into(*args)) and "
+                          "src_record_sync / src_record_async prove it equal to recordStep for the record kind.  "
+                          "DataclassValidator, NamedTupleValidator, TypedDictValidator: hand-modelled.  (2) the correspondence stream, for all "
                           "five.  Trusted: Lean kernel + propext/Quot.sound/Classical.choice; the translator and the "
                           "interpreter's reading of the Python subset; CPython for dict / set membership",
             "stream": "core", "opts": {"salt": "c04", "gen": ["streams", "gen_record_case"]},
